@@ -1,0 +1,70 @@
+//go:build verif
+
+package vestingsc
+
+// Machine-checked contracts for /verif/govc (contract-based deductive verification).
+// This file contains comments only; it is compiled only with -tags verif and adds no code.
+
+// ---------------------------------------------------------------- vesting (C16)
+// Floating point is uninterpreted here: everything below holds whatever the ratio
+// period/full evaluates to and however MultFloat64 rounds.
+
+//@ func (*destination).left
+//@   prop C16
+//@   requires d != nil
+//@   ensures err == nil <==> d.Vested <= d.Amount
+//@   ensures err == nil ==> left == d.Amount - d.Vested
+//@   modifies nothing
+
+//@ func (*destination).move
+//@   prop C16
+//@   requires d != nil
+//@   ensures result == nil ==> d.Vested == old(d.Vested) + moved && d.Last == now
+//@   ensures result != nil ==> d.Vested == old(d.Vested)
+//@   ensures d.Amount == old(d.Amount) && d.ID == old(d.ID)
+//@   ensures moved == 0 ==> d.Move == old(d.Move)
+//@   modifies d.Last, d.Move, d.Vested
+
+// "Tokens vested to a destination never exceed the amount assigned to it, never decrease"
+//@ func (*destination).unlock
+//@   prop C16
+//@   requires d != nil && d.Vested <= d.Amount
+//@   ensures[within-left] err == nil ==> amount <= old(d.Amount) - old(d.Vested)
+//@   ensures[vested-le-amount] d.Vested <= d.Amount
+//@   ensures d.Vested >= old(d.Vested) && d.Amount == old(d.Amount)
+//@   ensures err == nil && !dry ==> d.Vested == old(d.Vested) + amount
+//@   ensures dry ==> unchanged(d.Vested, d.Last, d.Move)
+//@   modifies d.Last, d.Move, d.Vested
+
+// "The pool always holds at least the unvested remainder ... owner can withdraw the excess":
+// the excess is the balance minus what is still owed; it must never be computed by a wrapping
+// subtraction.
+//@ func (*vestingPool).excess
+//@   prop C16
+//@   requires vp != nil && (forall i in 0..len(vp.Destinations) :: vp.Destinations[i] != nil)
+//@   ensures[no-wrap] err == nil ==> amount <= vp.Balance
+//@   modifies nothing
+//@   loop 1 invariant need >= 0
+
+// drain pays the owner exactly the excess, out of the pool balance.
+//@ func (*vestingPool).drain
+//@   prop C16
+//@   requires vp != nil && t != nil && (forall i in 0..len(vp.Destinations) :: vp.Destinations[i] != nil)
+//@   ensures err == nil ==> t.ClientID == vp.ClientID
+//@   ensures err == nil ==> $ntr == old($ntr) + 1 && $in[t.ClientID] - old($in[t.ClientID]) == old(vp.Balance) - vp.Balance
+//@   ensures err == nil ==> vp.Balance < old(vp.Balance)
+//@   ensures t.ClientID != vp.ClientID ==> err != nil && $ntr == old($ntr) && vp.Balance == old(vp.Balance)
+
+// vest (trigger for one destination) pays a destination no more than what is left for it.
+//@ func (*vestingPool).vest
+//@   prop C16
+//@   requires vp != nil && (forall i in 0..len(vp.Destinations) :: vp.Destinations[i] != nil && vp.Destinations[i].Vested <= vp.Destinations[i].Amount)
+//@   ensures err == nil ==> $ntr == old($ntr) + 1 && $in[destID] - old($in[destID]) == old(vp.Balance) - vp.Balance
+//@   ensures forall i in 0..len(vp.Destinations) :: vp.Destinations[i].Vested <= vp.Destinations[i].Amount && vp.Destinations[i].Vested >= old(vp.Destinations[i].Vested)
+
+//@ func (*vestingPool).find
+//@   prop C16
+//@   requires vp != nil && (forall i in 0..len(vp.Destinations) :: vp.Destinations[i] != nil)
+//@   ensures err == nil ==> d != nil && d.ID == destID && (exists i in 0..len(vp.Destinations) witness $idx :: vp.Destinations[i] == d)
+//@   ensures err != nil ==> d == nil
+//@   modifies nothing
